@@ -60,7 +60,7 @@ fn build(ch: &mut Chooser, fmt: &str, s: &str) -> (Vec<u8>, String) {
             let mut c = xlsx::XCell::new(1, 1, val);
             if storage == 2 { c.formula = Some(xlsx::XFormula::Plain("\"x\"".into())); }
             book.sheets.push(xlsx::XSheet::new("S", vec![xlsx::XCell::new(0, 0, sent), c]));
-            let e = xlsx::XEnc { prefix: ch.flag("xlsx.prefix"), ..Default::default() };
+            let e = xlsx::XEnc { prefix: ch.flag("xlsx.prefix"), indent: ch.flag("xlsx.indented"), ..Default::default() };
             (xlsx::write(&book, &e), format!("xlsx storage={storage} enc={enc:?} runs={shape} prefix={}", e.prefix))
         }
         "xlsb" => {
@@ -118,7 +118,7 @@ fn build(ch: &mut Chooser, fmt: &str, s: &str) -> (Vec<u8>, String) {
             let book = ods::OBook { sheets: vec![ods::OSheet { name: "S".into(), display: None, rows: vec![
                 ods::ORow { cells: vec![(ods::OCell::new(ods::OVal::StrContent(SENTINEL.into(), ods::SpaceMode::TextS, false)), 1)], repeat: 1 },
                 ods::ORow { cells: vec![(ods::OCell::empty(), 1), ({ let mut c = ods::OCell::new(val); c.annotation = annotated; c }, 1)], repeat: 1 },
-            ] }], ..Default::default() };
+            ] }], indent: ch.flag("ods.document-indented"), ..Default::default() };
             (ods::write(&book, Method::Deflated), format!("ods storage={storage}{}", if annotated { " annotated" } else { "" }))
         }
     }
